@@ -190,6 +190,22 @@ def alpha_rename (tree, modname):
 
 # ---------------------------------------------------------------- N1 desugar
 class _Desugar(ast.NodeTransformer):
+  def visit_Try (self, n):
+    """try: <one statement whose only call is SEQ.index(V)>  except ValueError: H   ==   if V in SEQ: <statement> else: H
+    (SEQ a plain name / attribute chain, V a constant or name: list.index raises ValueError exactly when V is not in SEQ)"""
+    self.generic_visit(n)
+    if len(n.body) == 1 and len(n.handlers) == 1 and not n.orelse and not n.finalbody and n.handlers[0].name is None \
+       and isinstance(n.handlers[0].type, ast.Name) and n.handlers[0].type.id == 'ValueError' and isinstance(n.body[0], (ast.Return, ast.Assign, ast.Expr)):
+      calls = [c for c in ast.walk(n.body[0]) if isinstance(c, ast.Call)]
+      if len(calls) == 1 and isinstance(calls[0].func, ast.Attribute) and calls[0].func.attr == 'index' and len(calls[0].args) == 1 and not calls[0].keywords:
+        seq = calls[0].func.value; v = calls[0].args[0]
+        b = seq
+        while isinstance(b, ast.Attribute): b = b.value
+        if isinstance(b, ast.Name) and isinstance(v, (ast.Constant, ast.Name)) and not any(isinstance(x, (ast.Subscript, ast.BinOp)) for x in ast.walk(n.body[0]) if x is not calls[0]):
+          test = ast.Compare(left=copy.deepcopy(v), ops=[ast.In()], comparators=[copy.deepcopy(seq)])
+          new = ast.If(test=test, body=n.body, orelse=n.handlers[0].body)
+          return ast.fix_missing_locations(ast.copy_location(new, n))
+    return n
   def visit_Compare (self, n):
     self.generic_visit(n)
     if len(n.ops) == 1:
